@@ -377,16 +377,21 @@ def r6(p, rep):
     f, fuse, fc = sites[0]
     site = f"{f.module.rel}:{fc.lineno}"
     a0 = fc.args[0]
-    if not isinstance(a0, ast.Name):
-        raise AnalysisError("unrecognised idiom: first argument of the group-merging call is not a name")
     loop = enclosing(fc, ast.For)
     if loop is None:
         raise AnalysisError("unrecognised idiom: group merging is not done inside the statement loop")
-    pops = [n for n in ast.walk(loop) if isinstance(n, ast.Assign) and any(isinstance(t, ast.Name) and t.id == a0.id for t in n.targets)]
-    if len(pops) != 1 or not (isinstance(pops[0].value, ast.Call) and isinstance(pops[0].value.func, ast.Attribute) and pops[0].value.func.attr == "pop"):
-        raise AnalysisError("unrecognised idiom: the fused input variable is not obtained by <set>.pop()")
-    setname = norm(pops[0].value.func.value)
-    comps = [n for n in ast.walk(loop) if isinstance(n, ast.Assign) and any(norm(t) == setname for t in n.targets) and isinstance(n.value, ast.SetComp) and n.lineno < pops[0].lineno]
+    if isinstance(a0, ast.Call) and isinstance(a0.func, ast.Attribute) and a0.func.attr == "pop" and not a0.args:
+        # fuse(<set>.pop(), ...): the candidate is taken from the set right in the call
+        popcall = a0
+    elif isinstance(a0, ast.Name):
+        pops = [n for n in ast.walk(loop) if isinstance(n, ast.Assign) and any(isinstance(t, ast.Name) and t.id == a0.id for t in n.targets)]
+        if len(pops) != 1 or not (isinstance(pops[0].value, ast.Call) and isinstance(pops[0].value.func, ast.Attribute) and pops[0].value.func.attr == "pop"):
+            raise AnalysisError("unrecognised idiom: the fused input variable is not obtained by <set>.pop()")
+        popcall = pops[0].value
+    else:
+        raise AnalysisError("unrecognised idiom: first argument of the group-merging call is neither a name nor <set>.pop()")
+    setname = norm(popcall.func.value)
+    comps = [n for n in ast.walk(loop) if isinstance(n, ast.Assign) and any(norm(t) == setname for t in n.targets) and isinstance(n.value, ast.SetComp) and n.lineno < popcall.lineno]
     # collect all conditions a candidate has to satisfy (comprehension filters, expanded through local predicates)
     conds = []
     localfns = {g.name: g for g in p.funcs.values() if g.parent is f or g.parent is comp}
@@ -437,7 +442,7 @@ def r6(p, rep):
     facts = cfg.guards_of_ast(fc)
     ok4 = any(pol and ".block" in norm(t) and ("==" in norm(t) or " is " in norm(t)) for t, pol in facts)
     rep.add("C04.R6", f"{comp.qualname}:fuse:same-block-pair", site, ok4, "merge only when input and output variable live in the same block" if ok4 else "the merge is not guarded by equal blocks of the two variables")
-    out_pop = [n for n in ast.walk(loop) if isinstance(n, ast.Assign) and isinstance(n.value, ast.Call) and isinstance(n.value.func, ast.Attribute) and n.value.func.attr == "pop" and n is not pops[0]]
+    out_pop = [n for n in ast.walk(loop) if isinstance(n, ast.Assign) and isinstance(n.value, ast.Call) and isinstance(n.value.func, ast.Attribute) and n.value.func.attr == "pop" and n.value is not popcall]
     b1 = common.len_bounds(facts, setname)
     b2 = common.len_bounds(facts, norm(out_pop[0].value.func.value)) if out_pop else (0, None)
     ok5 = b1 == (1, 1) and b2 == (1, 1)
@@ -581,6 +586,58 @@ def r8(p, rep):
             else:
                 rep.add("C04.R8", f"{g.qualname}:yield:not-a-reserved-name", site, res, f"`{yv}` is yielded only when it is not one of the hinted names ({sorted(hint_src)[:4]})" if res else f"a generated name can equal a hinted name (e.g. the 380th name `np` when numpy is imported as np): the later assignment shadows the import inside the generated function")
 
+def r9(p, rep):
+    rep.rule("C04.R9", "the expression cache of the code generator keys list, tuple and dict values apart (the emitted container is the one the graph asks for)", "T-EXH (tagged key per container kind)", floor=3)
+    comp = compile_func(p)
+    cands = []
+    for f in p.funcs.values():
+        if f.module is not comp.module or f.cls is None:
+            continue
+        tagged = [r for r in walk_no_nested(f.node) if isinstance(r, ast.Return) and isinstance(r.value, ast.BinOp) and isinstance(r.value.op, ast.Add) and _leading_tag(r.value) is not None]
+        if len(tagged) >= 2:
+            cands.append((f, tagged))
+    if len(cands) != 1:
+        raise AnalysisError(f"unrecognised idiom: expected one tagged-tuple key function in the code generator, found {[f.qualname for f, _ in cands]}")
+    f, tagged = cands[0]
+    cfg = CFG(f.node)
+    seen_tags, kinds = {}, {}
+    for r in tagged:
+        tag = _leading_tag(r.value)
+        classes = set()
+        for t, pol in cfg.guards_of_ast(r):
+            if pol and isinstance(t, ast.Call) and isinstance(t.func, ast.Name) and t.func.id == "isinstance" and len(t.args) == 2:
+                c = t.args[1]
+                parts = []
+                stack = [c]
+                while stack:
+                    x = stack.pop()
+                    if isinstance(x, ast.BinOp) and isinstance(x.op, ast.BitOr):
+                        stack += [x.left, x.right]
+                    elif isinstance(x, ast.Tuple):
+                        stack += list(x.elts)
+                    else:
+                        parts.append(norm(x))
+                classes |= set(parts)
+        site = f"{f.module.rel}:{r.lineno}"
+        one = len(classes) == 1
+        rep.add("C04.R9", f"{f.qualname}:arm({','.join(sorted(classes))}):one-kind", site, one, f"key tag {tag!r} stands for exactly {sorted(classes)}" if one else f"key tag {tag!r} is shared by {sorted(classes)}: a list and a tuple over the same elements get one cache entry, so the generated code returns whichever container was emitted first")
+        dup = tag in seen_tags
+        rep.add("C04.R9", f"{f.qualname}:arm({','.join(sorted(classes))}):distinct-tag", site, not dup, f"tag {tag!r} is used by this arm only" if not dup else f"tag {tag!r} is also used for {seen_tags[tag]}")
+        seen_tags[tag] = sorted(classes)
+        for c in classes:
+            kinds[c] = tag
+    missing = {"list", "tuple", "dict"} - set(kinds)
+    rep.add("C04.R9", f"{f.qualname}:kinds", f.loc, not missing, "list, tuple and dict each have their own arm" if not missing else f"no arm for {sorted(missing)}")
+
+
+def _leading_tag(binop):
+    x = binop
+    while isinstance(x, ast.BinOp) and isinstance(x.op, ast.Add):
+        x = x.left
+    if isinstance(x, ast.Tuple) and len(x.elts) == 1 and isinstance(x.elts[0], ast.Constant):
+        return x.elts[0].value
+    return None
+
 
 def run(p, rep, tier):
     r1(p, rep)
@@ -590,6 +647,7 @@ def run(p, rep, tier):
     r5(p, rep)
     r6(p, rep)
     r8(p, rep)
+    r9(p, rep)
     rep.rule("C06.R1", "IR nodes compare every field (graph equality drives inline decisions and pattern matching)", "T-SIB (__init__ vs __eq__)", floor=30)
     c06.r1(p, rep)
     if tier == "thorough":
